@@ -91,11 +91,10 @@ func (self *Core) runInstruction(instruction compiler.Instruction) *value.VmInte
 		case value.BuiltinFunctionValueKind:
 			fn := function.(value.ValueBuiltinFunction)
 
-			args := make([]value.Value, 0)
-			for i := 0; i < int(numArgs); i++ {
-				v := *self.pop()
-
-				args = append(args, v)
+			// The last argument is on top of the stack
+			args := make([]value.Value, numArgs)
+			for i := int(numArgs) - 1; i >= 0; i-- {
+				args[i] = *self.pop()
 			}
 
 			if debugAssertions {
